@@ -286,7 +286,10 @@ def parent_main(prop, tier, seed):
     nshards = mon.SHARDS.get(tier, 1)
     nshards = max(1, min(nshards, os.cpu_count() or 1))
     timeout = mon.TIMEOUT.get(tier, 600) if hasattr(mon, 'TIMEOUT') else (300 if tier == 'quick' else 3000)
-    edir = os.environ.get('VERIF_EVIDENCE_DIR') or os.path.join(HERE, 'evidence')   # selftest redirects this
+    # evidence/<id>.json is reserved for runs against /repo itself; runs against another tree (selftest, controls, experiments) go elsewhere
+    edir = os.environ.get('VERIF_EVIDENCE_DIR') or (os.path.join(HERE, 'evidence') if repo_root() == '/repo'
+                                                    else os.path.join(HERE, 'evidence', '.other-tree'))
+    os.makedirs(edir, exist_ok=True)
     tmpdir = os.path.join(edir, f'.tmp-{prop}-{os.getpid()}')
     os.makedirs(tmpdir, exist_ok=True)
     env = dict(os.environ)
